@@ -2,8 +2,10 @@ package main
 
 import (
 	"fmt"
+	"go/constant"
 	"go/token"
 	"go/types"
+	"regexp"
 	"sort"
 	"strings"
 
@@ -94,6 +96,7 @@ func runC11(c *Ctx) {
 	ruleP2c11(c)
 	ruleP3c11(c)
 	ruleP4(c)
+	ruleP4Extract(c)
 	ruleP5(c)
 	// ---- P6 ---------------------------------------------------------------------
 	for _, fn := range c.moduleFuncs() {
@@ -150,9 +153,20 @@ func ruleP1(c *Ctx) {
 func ruleP4(c *Ctx) {
 	r := c.R
 	np, nv, nvp := 0, 0, 0
+	lexMin := lexemeMinLens(c)
 	for _, fn := range c.moduleFuncs() {
 		for _, s := range indexSites(fn) {
 			key := fmt.Sprintf("%s/%s:%s", funcKey(fn), exprOfValue(s.Base), s.Desc)
+			if ml0, ok := lexMin[fn]; ok && exprOfValue(s.Base) == "rawToken.Value" {
+				// the token text itself: its length is at least the shortest match of the rule(s) using this action
+				ml := ml0.restrictTo(s.Instr.Block())
+				if int64(ml.min) >= s.Need {
+					r.Discharge("P4", key, c.P.pos(s.Pos), fmt.Sprintf("verified against the lexer table: the shortest lexeme of rule(s) %v has %d bytes >= %d", ml.rules, ml.min, s.Need))
+				} else {
+					r.Finding("P4", key, c.P.pos(s.Pos), fmt.Sprintf("the token text is indexed/sliced assuming >= %d bytes but rule(s) %v can match a lexeme of %d bytes: out-of-range panic while tokenising", s.Need, ml.rules, ml.min))
+				}
+				continue
+			}
 			if s.Proven {
 				np++
 				r.Discharge("P4", key, c.P.pos(s.Pos), fmt.Sprintf("dominating conditions give len ∈ %s ⊆ [%d,∞)", s.Fact, s.Need))
@@ -663,4 +677,169 @@ func derefsParamUnguarded(fn *ssa.Function, i int) bool {
 	}
 	derefParamMemo[fn][i] = res
 	return res
+}
+
+type lexMinInfo struct {
+	min   int
+	rules []string
+	per   []lexRuleUse
+}
+
+type lexRuleUse struct {
+	pattern string
+	min     int
+	env     map[string]bool // boolean free variables of the action closure for this rule
+}
+
+// restrictTo: only the rules whose captured boolean flags are consistent with
+// the branch conditions dominating blk (envOp(true) vs envOp(false) share one
+// closure body, the strenv branch is taken only for the strenv rule).
+func (l lexMinInfo) restrictTo(blk *ssa.BasicBlock) lexMinInfo {
+	want := map[string]bool{}
+	dominatingConds(blk, func(cond ssa.Value, taken bool, at *ssa.BasicBlock) {
+		v := cond
+		if u, ok := v.(*ssa.UnOp); ok && u.Op == token.NOT {
+			v, taken = u.X, !taken
+		}
+		if u, ok := v.(*ssa.UnOp); ok && u.Op == token.MUL {
+			v = u.X
+		}
+		if fv, ok := v.(*ssa.FreeVar); ok {
+			want[fv.Name()] = taken
+		}
+	})
+	if len(want) == 0 {
+		return l
+	}
+	out := lexMinInfo{min: -1}
+	for _, u := range l.per {
+		ok := true
+		for name, val := range want {
+			if b, has := u.env[name]; has && b != val {
+				ok = false
+			}
+		}
+		if !ok {
+			continue
+		}
+		if out.min < 0 || u.min < out.min {
+			out.min = u.min
+		}
+		out.rules = append(out.rules, u.pattern)
+	}
+	if out.min < 0 {
+		return l
+	}
+	return out
+}
+
+// lexemeMinLens: for every lexer action closure, the length of the shortest
+// lexeme of the rules that use it.
+func lexemeMinLens(c *Ctx) map[*ssa.Function]lexMinInfo {
+	out := map[*ssa.Function]lexMinInfo{}
+	if !c.tables() {
+		return out
+	}
+	for _, lr := range c.Lex.Rules {
+		if lr.Action == nil || lr.Action.kind != "closure" {
+			continue
+		}
+		fn := c.Lex.litFunc[lr.Action.lit]
+		if fn == nil {
+			continue
+		}
+		ml, ok := minLenRegex(lr.Pattern)
+		if !ok {
+			continue
+		}
+		cur, seen := out[fn]
+		if !seen || ml < cur.min {
+			cur.min = ml
+		}
+		cur.rules = append(cur.rules, lr.Pattern)
+		env := map[string]bool{}
+		for v, a := range lr.Action.env {
+			if a != nil && a.kind == "const" && a.cval != nil && a.cval.Kind() == constant.Bool {
+				env[v.Name()] = constant.BoolVal(a.cval)
+			}
+		}
+		cur.per = append(cur.per, lexRuleUse{lr.Pattern, ml, env})
+		out[fn] = cur
+	}
+	return out
+}
+
+// ruleP4Extract: extractNumberParameter indexes matches[1] of its own pattern:
+// every lexeme of every rule whose action calls it must match that pattern.
+func ruleP4Extract(c *Ctx) {
+	r := c.R
+	if !c.tables() {
+		return
+	}
+	ex := c.libFunc("extractNumberParameter")
+	if ex == nil {
+		r.Fatal("anchor missing: extractNumberParameter")
+		return
+	}
+	// its pattern: the constant passed to regexp.MustCompile
+	pat := ""
+	eachInstr(ex, func(ins ssa.Instruction) {
+		if call, ok := ins.(*ssa.Call); ok && strings.HasPrefix(calleeName(&call.Call), "regexp.MustCompile") {
+			if cst, ok := call.Call.Args[0].(*ssa.Const); ok && cst.Value != nil {
+				pat = constantString(cst)
+			}
+		}
+	})
+	if pat == "" {
+		r.Undecided("P4", "extractNumberParameter/pattern", c.P.pos(ex.Pos()), "its pattern is not a constant")
+		return
+	}
+	re, err := regexp.Compile(pat)
+	if err != nil {
+		r.Finding("P4", "extractNumberParameter/pattern", c.P.pos(ex.Pos()), "pattern does not compile")
+		return
+	}
+	n := 0
+	for _, lr := range c.Lex.Rules {
+		if lr.Action == nil || lr.Action.kind != "closure" {
+			continue
+		}
+		fn := c.Lex.litFunc[lr.Action.lit]
+		if fn == nil {
+			continue
+		}
+		calls := false
+		eachInstr(fn, func(ins ssa.Instruction) {
+			if call, ok := ins.(*ssa.Call); ok && call.Call.StaticCallee() == ex {
+				calls = true
+			}
+		})
+		if !calls {
+			continue
+		}
+		n++
+		key := fmt.Sprintf("extractNumberParameter<-rule[%q]", lr.Pattern)
+		bad := ""
+		samples := samplesRegex(lr.Pattern, 64)
+		for _, s := range samples {
+			if m := re.FindStringSubmatch(s); len(m) < 2 {
+				bad = s
+			}
+		}
+		if bad == "" && len(samples) > 0 {
+			r.Discharge("P4", key, c.P.pos(lr.Pos), fmt.Sprintf("all %d sample lexemes of the rule match %q with its capture group (matches[1] exists)", len(samples), pat))
+		} else {
+			r.Finding("P4", key, c.P.pos(lr.Pos), fmt.Sprintf("the rule accepts the lexeme %q, which the parameter pattern %q does not match: matches[1] is out of range and tokenising panics", bad, pat))
+		}
+	}
+	if n == 0 {
+		r.Note("P4: no lexer rule action calls extractNumberParameter")
+	}
+}
+
+func constantString(c *ssa.Const) string {
+	if c.Value == nil || c.Value.Kind() != constant.String {
+		return ""
+	}
+	return constant.StringVal(c.Value)
 }
